@@ -23,6 +23,9 @@ func fmtDirectives(r *rng, e int, length int) []string {
 	}
 	for i := 0; i < 6; i++ {
 		v := verbs[r.intn(len(verbs))]
+		if i == 0 {
+			v = r.pickS([]string{"e", "E"}) // always one scientific directive (exponent width matters for padding)
+		}
 		p := precs[r.intn(len(precs))]
 		if p < -1 {
 			p = 0
@@ -56,6 +59,10 @@ func genC08(e *emitter, r *rng, tier string) {
 	exps := []int{-12, -8, -5, -4, -3, -2, -1, 0, 1, 2, 5, 6, 7, 8, 16, 17, 20, 300}
 	for i := 0; i < n; i++ {
 		ex := exps[r.intn(len(exps))]
+		if r.coin(20) {
+			// exponents with three and four digits (the e+XX part of the field grows), both signs
+			ex = r.pick([]int{-1000, -300, -101, -100, -99, 99, 100, 101, 999, 1000})
+		}
 		length := r.pick([]int{1, 2, 3, 5, 6, 7, 15, 16, 17, 30, -1})
 		var ns numSpec
 		switch r.intn(4) {
@@ -104,6 +111,14 @@ func genC08(e *emitter, r *rng, tier string) {
 		b.add("str:%d", h)
 		if ns.length >= 0 || h == 1 {
 			b.add("exact:%d", h)
+		}
+		if h == 1 {
+			// formatting a truncated view (zero padding beyond its digits) must leave the parent's
+			// digits alone: format and read the parent afterwards, beyond the view's length
+			b.add("fmt:0:%%.%df", r.pick([]int{8, 20, 40, 120}))
+			b.add("fmt:0:%%.%de", r.pick([]int{8, 20, 40, 120}))
+			b.add("str:0")
+			b.add("fwd:0:%d", r.pick([]int{10, 30, 130}))
 		}
 		b.emit(e, fmt.Sprintf("C08.exp%d", ex))
 	}
@@ -225,7 +240,13 @@ func genC09(e *emitter, r *rng, tier string) {
 				p = nil // empty
 			case 1: // contains an out-of-range value
 				p = lowEntropyDigits(r, 1+r.intn(3), alphabet)
-				p[r.intn(len(p))] = r.pick([]int{-1, 10, 77, -9})
+				if r.coin(50) {
+					p[r.intn(len(p))] = r.pick([]int{-1, 10, 77, -9})
+				} else {
+					// a value that is a digit after truncation to 8/16/32 bits: still matches nowhere
+					i := r.intn(len(p))
+					p[i] += r.pick([]int{256, -256, 512, 65536, -65536, 1 << 32, -(1 << 32), 1 << 40})
+				}
 			case 2: // periodic / nested borders
 				unit := lowEntropyDigits(r, 1+r.intn(3), alphabet)
 				for k := 0; k < 2+r.intn(12); k++ {
@@ -491,7 +512,19 @@ func genC13(e *emitter, r *rng, tier string) {
 	// NewNumberFromBigRat: all versions, all magnitudes, terminating or not
 	for i := 0; i < n/4; i++ {
 		var num, den *big.Int
-		switch r.intn(5) {
+		switch r.intn(6) {
+		case 5:
+			// machine-word boundaries: denominators of 55..65 bits, numerator just below / far below
+			bits := 55 + r.intn(11)
+			den = new(big.Int).Lsh(big.NewInt(1), uint(bits-1))
+			den.Add(den, new(big.Int).Rsh(new(big.Int).SetUint64(r.next()), uint(65-bits)))
+			den.SetBit(den, bits-1, 1)
+			den.SetBit(den, 0, 1)
+			if r.coin(60) {
+				num = new(big.Int).Sub(den, big.NewInt(int64(1+r.intn(9))))
+			} else {
+				num = new(big.Int).Rsh(new(big.Int).Mul(den, big.NewInt(int64(1+r.intn(7)))), 3)
+			}
 		case 0:
 			num, den = r.bigRand(1+r.intn(30)), new(big.Int).Mul(pow(2, r.intn(20)), pow(5, r.intn(20)))
 		case 1:
